@@ -48,8 +48,15 @@ def truncVariance (eps delta sens lower upper v : α) : α := truncVarianceOf (l
 
 /-! ### folded Laplace -/
 
-/-- `LaplaceFolded.bias` for a given `shape` -/
+/-- `LaplaceFolded.bias` for a given `shape`:
+`shape * (exp((lower - value)/shape) - exp((value - upper)/shape)) / (exp((lower - upper)/shape) + 1)` -/
 def foldBiasOf (shape lower upper v : α) : α :=
+  shape * (Transc.exp ((lower - v) / shape) - Transc.exp ((v - upper) / shape)) /
+    (Transc.exp ((lower - upper) / shape) + 1)
+
+/-- the expression `LaplaceFolded.bias` used before commit 21336e0 (it overflowed to `inf/inf` for wide domains);
+kept to state that the two are the same function over ℝ -/
+def foldBiasOld (shape lower upper v : α) : α :=
   shape * (Transc.exp ((lower + upper - 2 * v) / shape) - 1) /
     (Transc.exp ((lower - v) / shape) + Transc.exp ((upper - v) / shape))
 
